@@ -103,7 +103,9 @@ impl<F: Float, D: Data<Elem = F>, T: AsTargets> Fit<ArrayBase<D, Ix2>, T, Prepro
                 let s = s.mapv(Scalar::from_real);
                 let s = s.without_lapack();
 
-                let s = s.mapv(|x: F| x.max(F::cast(1e-8)));
+                // floor relative to the largest singular value: the spectrum scales with the unit of the data
+                let floor = s.iter().copied().fold(F::zero(), F::max) * F::epsilon();
+                let s = s.mapv(|x: F| x.max(floor));
 
                 let cov_scale = F::cast(x.nsamples() - 1).sqrt();
                 for (mut v_t, s) in v_t.axis_iter_mut(Axis(0)).zip(s.iter()) {
@@ -122,7 +124,9 @@ impl<F: Float, D: Data<Elem = F>, T: AsTargets> Fit<ArrayBase<D, Ix2>, T, Prepro
                 let s = s.mapv(Scalar::from_real);
                 let s = s.without_lapack();
 
-                let s = s.mapv(|x: F| (F::one() / x.sqrt()).max(F::cast(1e-8)));
+                // floor the eigenvalues, relative to the largest one, before they are inverted
+                let floor = s.iter().copied().fold(F::zero(), F::max) * F::epsilon();
+                let s = s.mapv(|x: F| F::one() / x.max(floor).sqrt());
                 let lambda: Array2<F> = Array2::<F>::eye(s.len()) * s;
                 u.dot(&lambda).dot(&u.t())
             }
